@@ -1,7 +1,7 @@
 //@unit U14.2c props=C14 tier=quick
 //@source name=bs kind=file path=read-fonts/src/collections/int_set/bitset.rs
 // C14, middle layer, page compaction (used by intersect / reversed_subtract between the forward and the backward merge):
-// BitSet::compact_pages and BitSet::compact on the real text, for unboundedly many pages. compact(new_len) moves the pages of the
+// BitSet::compact_pages, BitSet::compact and BitSet::resize on the real text, for unboundedly many pages. compact(new_len) moves the pages of the
 // first new_len map entries (whose page indices must be distinct and in range) to the page slots 0..new_len, keeps every entry's
 // major value and every kept page's contents, and leaves both vectors' lengths alone - exactly the contract the merge proof
 // (unit U14.2p) assumes for it. compact_pages: given the inverse table (old page index -> map index, usize::MAX = dropped), the
@@ -17,7 +17,11 @@ pub struct BitPage { _p: u8 }
 impl BitPage {
     pub uninterp spec fn view(&self) -> Set<u32>;
     #[verifier::external_body]
-    pub fn clone(&self) -> (r: Self) ensures r@ == self@ { unimplemented!() }
+    pub fn new_zeroes() -> (r: Self) ensures r@ == Set::<u32>::empty() { unimplemented!() }
+}
+impl Clone for BitPage {
+    #[verifier::external_body]
+    fn clone(&self) -> (r: Self) ensures r@ == self@ { unimplemented!() }
 }
 #[derive(Clone, Copy)]
 pub struct PageInfo {
@@ -155,6 +159,14 @@ impl BitSet {
                     lemma_rank_mono(t, p, verif_it.pos() - 1);
                 }
             }
+//@end
+
+//@extract source=bs container="impl BitSet" fn=resize
+//@spec
+        ensures final(self).page_map@.len() == new_len, final(self).pages@.len() == new_len, final(self).length == old(self).length,
+            forall|k: int| 0 <= k < new_len && k < old(self).page_map@.len() ==> #[trigger] final(self).page_map@[k] == old(self).page_map@[k],
+            forall|k: int| 0 <= k < new_len && k < old(self).pages@.len() ==> #[trigger] final(self).pages@[k] == old(self).pages@[k],
+            forall|k: int| old(self).pages@.len() <= k < new_len ==> (#[trigger] final(self).pages@[k])@ == Set::<u32>::empty(),
 //@end
 
 //@extract source=bs container="impl BitSet" fn=compact
